@@ -9,6 +9,7 @@ import (
 	"github.com/orda-io/orda/client/pkg/model"
 	"google.golang.org/protobuf/proto"
 	"pgregory.net/rapid"
+	"verif/fakemongo"
 	"verif/sim"
 	"verif/stats"
 )
@@ -467,6 +468,101 @@ func TestC16Others(t *testing.T) {
 		}
 		col.Case(refused || kind == "patch", canon.String(), []string{"kind=" + kind, fmt.Sprintf("refused=%v", refused), desc}, func() interface{} {
 			return map[string]interface{}{"request": desc, "refused": refused}
+		})
+	})
+}
+
+// TestC16RealClient: a REAL client (manual sync, gRPC) whose Sync() is refused at message level
+// reports the error and remains usable: the next Sync() returns too, and succeeds once the cause
+// of the refusal is gone.
+func TestC16RealClient(t *testing.T) {
+	col := stats.New("C16", t.Name(),
+		"one REAL client (orda.NewClient, manual sync, gRPC) creates a Counter / List / Map / Document, makes 0-3 local calls and calls Sync(); the request is refused at message level by a drawn cause: "+
+			"the client was purged (its collection was reset), the request is lost before the server, the response is lost, or the first database command of the request fails; the causes that pass (lost request / response, database fault) are then removed; "+
+			"oracle: every Sync() returns within the deadline (never a hang), a refusal comes back as an error, after a passing cause the next Sync() succeeds and leaves nothing unpushed, after the purge the next Sync() returns again (error or not); "+
+			"non-trivial = the refused Sync() returned an error to the caller; distinct = (kind, cause, calls)")
+	checkProp(t, "C16", col, func(c *caseCtx) {
+		rt := c.rt
+		kind := kindFromDraw(rt)
+		cause := rapid.SampledFrom([]string{"client-purged", "request-lost", "response-lost", "database-fault"}).Draw(rt, "cause")
+		ncalls := rapid.IntRange(0, 3).Draw(rt, "calls")
+		first := rapid.Bool().Draw(rt, "refuse-the-creating-sync")
+		idseed := rapid.Uint64Range(1, 1<<30).Draw(rt, "idseed")
+		c.j.Header = map[string]interface{}{"kind": kind, "cause": cause, "calls": ncalls, "refuse_the_creating_sync": first, "id_seed": idseed}
+		w, err := newL1World(idseed, []sim.Kind{kind})
+		if err != nil {
+			c.failf("HARNESS-ERROR: %v", err)
+		}
+		defer w.close()
+		k := w.keys[0]
+		a, e := w.env.NewRealClient(w.col, "A", model.SyncType_MANUALLY)
+		if e != nil {
+			c.failf("HARNESS-ERROR: %v", e)
+		}
+		if e := a.Connect(); e != nil {
+			c.failf("HARNESS-ERROR: connect: %v", e)
+		}
+		defer func() { watchdog(3*time.Second, func() { _ = a.Close() }) }()
+		ra := &rtClient{cl: a}
+		ra.dt = openRealtime(a, kind, k.Name, true, ra.handlers())
+		n := 0
+		calls := func() {
+			for i := 0; i < ncalls; i++ {
+				n++
+				sim.Exec(kind, ra.dt, c06CheapCall(kind, n))
+			}
+		}
+		calls()
+		if !first {
+			if err, hung := syncWithDeadline(a, l1Deadline); err != nil || hung {
+				c.failf("HARNESS-ERROR: fault-free first Sync(): err=%v hung=%v", err, hung)
+			}
+			calls()
+		}
+		switch cause {
+		case "client-purged":
+			if err := w.env.ResetCollection(w.col); err != nil {
+				c.failf("HARNESS-ERROR: reset: %v", err)
+			}
+		case "request-lost":
+			w.env.SetGRPCRequestHook(func(method string, req proto.Message) bool { return method == "ProcessPushPull" })
+		case "response-lost":
+			w.env.SetGRPCHook(func(method string, req proto.Message) bool { return method == "ProcessPushPull" })
+		case "database-fault":
+			w.env.WaitBackground(3 * time.Second)
+			w.env.Mongo.ResetLog()
+			w.env.Mongo.SetFaultHook(func(cmd *fakemongo.Cmd) fakemongo.Fault {
+				if cmd.Seq == 1 {
+					return fakemongo.FailBefore
+				}
+				return fakemongo.None
+			})
+		}
+		ferr, hung := syncWithDeadline(a, l1Deadline)
+		if hung {
+			c.failf("Sync() did not return within %v when the request was refused (%s)", l1Deadline, cause)
+		}
+		if ferr == nil && cause == "request-lost" { // (a database fault may have hit background work of the previous request instead)
+			c.failf("Sync() returned no error although the request was refused (%s)", cause)
+		}
+		w.env.SetGRPCRequestHook(nil)
+		w.env.SetGRPCHook(nil)
+		w.env.Mongo.SetFaultHook(nil)
+		calls()
+		var lastErr error
+		ok := false
+		for try := 0; try < 3 && !ok; try++ {
+			lastErr, hung = syncWithDeadline(a, l1Deadline)
+			if hung {
+				c.failf("after a refused Sync() (%s: %v) the next Sync() of the same client never returned: the client is not usable any more", cause, ferr)
+			}
+			ok = lastErr == nil && !ra.dt.NeedPush()
+		}
+		if cause != "client-purged" && !ok {
+			c.failf("after the cause of the refusal (%s) was removed Sync() still fails: %v (unpushed=%v)", cause, lastErr, ra.dt.NeedPush())
+		}
+		col.Case(ferr != nil, fmt.Sprintf("%s|%s|%d|%v", kind, cause, ncalls, first), []string{"kind=" + string(kind), "cause=" + cause, fmt.Sprintf("refused-sync-returned-error=%v", ferr != nil)}, func() interface{} {
+			return map[string]interface{}{"kind": kind, "cause": cause, "first_error": fmt.Sprint(ferr), "retry_error": fmt.Sprint(lastErr)}
 		})
 	})
 }
